@@ -176,7 +176,7 @@ def handle (req impl : String) : String × String :=
     match r.toNat?, n.toNat?, B op, B o, p.toNat?, optId id, optId u with
     | some r, some n, some op, some o, some _p, some _id, some u =>
       if r ≤ 4 then
-        let m := okBool (some (validateOwnerPasswordLegacy r n op o))
+        let m := okBool (some (validateOwnerPassword r n op o _p _id u))
         -- Algorithm 7 on the same /O, /U, /P, /ID: the owner password is authentic iff the user
         -- password recovered from /O passes Algorithm 6
         let spec : Bool := match u with
@@ -199,7 +199,7 @@ def handle (req impl : String) : String × String :=
           | some u => okBool (validateOwner56 r op o u)
         let o' := match u with
           | none => "na"
-          | some u => if (alg12 r op o u (List.replicate 32 0)).isSome = (impl = "true") then "ok" else "fail:algorithm-12-disagrees"
+          | some u => if (alg12 r (op.take 127) o u (List.replicate 32 0)).isSome = (impl = "true") then "ok" else "fail:algorithm-12-disagrees"
         (m, o')
     | _, _, _, _, _, _, _ => bad
   | ["objkey", _r, _n, k, num, g] =>
@@ -215,33 +215,33 @@ def handle (req impl : String) : String × String :=
   | ["uent", r, p] =>
     match r.toNat?, B p, B (impl.drop 3).toString with
     | some r, some p, some u =>
-      if impl.startsWith "ok:" ∧ u.length = 48 ∧ alg8U r p (vSalt u) (kSalt u) = u then (impl, "ok")
+      if impl.startsWith "ok:" ∧ u.length = 48 ∧ alg8U r (p.take 127) (vSalt u) (kSalt u) = u then (impl, "ok")
       else ("spec-mismatch", "fail:U-is-not-Algorithm-8-for-its-salts")
     | _, _, _ => ("spec-mismatch", "fail:unparsable")
   | ["oent", r, p, u] =>
     match r.toNat?, B p, B u, B (impl.drop 3).toString with
     | some r, some p, some u, some o =>
-      if impl.startsWith "ok:" ∧ o.length = 48 ∧ alg9O r p (vSalt o) (kSalt o) u = o then (impl, "ok")
+      if impl.startsWith "ok:" ∧ o.length = 48 ∧ alg9O r (p.take 127) (vSalt o) (kSalt o) u = o then (impl, "ok")
       else ("spec-mismatch", "fail:O-is-not-Algorithm-9-for-its-salts")
     | _, _, _, _ => ("spec-mismatch", "fail:unparsable")
   | ["ue", r, p, u, k] =>
     match r.toNat?, B p, B u, B k with
     | some r, some p, some u, some k =>
       let m := okHex (computeUE r p u k)
-      (m, if u.length = 48 ∧ k.length = 32 ∧ p.length ≤ 127 then cmp ("ok:" ++ H (alg8UE r p (kSalt u) k)) impl else "na")
+      (m, if u.length = 48 ∧ k.length = 32 then cmp ("ok:" ++ H (alg8UE r (p.take 127) (kSalt u) k)) impl else "na")
     | _, _, _, _ => bad
   | ["oe", r, p, o, u, k] =>
     match r.toNat?, B p, B o, B u, B k with
     | some r, some p, some o, some u, some k =>
       let m := okHex (computeOE r p o u k)
-      (m, if o.length = 48 ∧ u.length = 48 ∧ k.length = 32 ∧ p.length ≤ 127 then cmp ("ok:" ++ H (alg9OE r p (kSalt o) u k)) impl else "na")
+      (m, if o.length = 48 ∧ u.length = 48 ∧ k.length = 32 then cmp ("ok:" ++ H (alg9OE r (p.take 127) (kSalt o) u k)) impl else "na")
     | _, _, _, _, _ => bad
   | ["recu", r, p, u, ue] =>
     match r.toNat?, B p, B u, B ue with
     | some r, some p, some u, some ue =>
       let m := okHex (recoverUser56 r p u ue)
       -- when Algorithm 11 accepts, the recovered key must be the reference's
-      let o := match alg11 r p u ue with
+      let o := match alg11 r (p.take 127) u ue with
         | some k => if ue.length = 32 then cmp ("ok:" ++ H k) impl else "na"
         | none => "na"
       (m, o)
@@ -250,7 +250,7 @@ def handle (req impl : String) : String × String :=
     match r.toNat?, B p, B o, B u, B oe with
     | some r, some p, some o, some u, some oe =>
       let m := okHex (recoverOwner56 r p o u oe)
-      let orc := match alg12 r p o u oe with
+      let orc := match alg12 r (p.take 127) o u oe with
         | some k => if oe.length = 32 then cmp ("ok:" ++ H k) impl else "na"
         | none => "na"
       (m, orc)
@@ -259,15 +259,15 @@ def handle (req impl : String) : String × String :=
     match r.toNat?, B p, B u with
     | some r, some p, some u =>
       let m := okBool (validateUser56 r p u)
-      let spec := (alg11 r p u (List.replicate 32 0)).isSome
-      (m, if u.length < 48 ∨ p.length > 127 then "na" else if spec = (impl = "true") then "ok" else "fail:algorithm-11-disagrees")
+      let spec := (alg11 r (p.take 127) u (List.replicate 32 0)).isSome
+      (m, if u.length < 48 then "na" else if spec = (impl = "true") then "ok" else "fail:algorithm-11-disagrees")
     | _, _, _ => bad
   | ["valo", r, p, o, u] =>
     match r.toNat?, B p, B o, B u with
     | some r, some p, some o, some u =>
       let m := okBool (validateOwner56 r p o u)
-      let spec := (alg12 r p o u (List.replicate 32 0)).isSome
-      (m, if o.length < 48 ∨ u.length < 48 ∨ p.length > 127 then "na" else if spec = (impl = "true") then "ok" else "fail:algorithm-12-disagrees")
+      let spec := (alg12 r (p.take 127) o u (List.replicate 32 0)).isSome
+      (m, if o.length < 48 ∨ u.length < 48 then "na" else if spec = (impl = "true") then "ok" else "fail:algorithm-12-disagrees")
     | _, _, _, _ => bad
   | ["perms", _r, p, k, em] =>
     match p.toNat?, B k, B (impl.drop 3).toString with
@@ -335,8 +335,8 @@ def handle (req impl : String) : String × String :=
       let spec : Option Bytes :=
         if r ≤ 4 then
           (if who = "user" then alg6 r n pw o u d.p (id.getD []) emv else alg7 r n pw o u d.p (id.getD []) emv)
-        else if pw.length > 127 then none
-        else if who = "user" then alg11 r pw u (ue.getD []) else alg12 r pw o u (oe.getD [])
+        -- Algorithm 2.A (a): the UTF-8 password is truncated to 127 bytes
+        else if who = "user" then alg11 r (pw.take 127) u (ue.getD []) else alg12 r (pw.take 127) o u (oe.getD [])
       let orc := match spec with
         | some k => if impl = "true:" ++ H k then "ok" else "fail:right-password-not-accepted-or-wrong-key"
         | none => if impl.startsWith "true" then "fail:password-accepted-that-the-algorithm-refuses" else "ok"
